@@ -10,3 +10,5 @@ pub mod c04;
 pub mod c18;
 pub mod c12;
 pub mod c11;
+pub mod c09;
+pub mod c10;
